@@ -3,7 +3,7 @@
    small-step interleaving semantics of util/queue.go at the granularity of every lock and
    mailbox operation, for one producer and one consumer, over an arbitrary chunk type. *)
 From Coq Require Import List Arith.
-From Scrapli Require Import DecideLang GeneratedSkel QueueSrc Queue QueueLemmas.
+From Scrapli Require Import DecideLang GeneratedSkel QueueSrc QueueSrcOk Queue QueueLemmas.
 Import ListNotations.
 
 (* for every chunk list, every consumer program and EVERY schedule: *)
